@@ -7,6 +7,7 @@ let suites : (string * (string -> string)) list = [
   ("reg", Suite_parse.run);
   ("print", Suite_print.run);
   ("gram", Suite_gram.run);
+  ("modes", Suite_modes.run);
   ("writer", Suite_writer.run);
   ("relex", Suite_relex.run);
 ]
